@@ -184,6 +184,62 @@ def f1_merge_stores(ctx: Ctx) -> None:
                     (ctx.ok if rok else ctx.unk)(R, f, a, f'allocation dtype: {rwhy}', key=key)
 
 
+
+def f1_resolver_coverage(ctx: Ctx) -> None:
+    R = 'F1.resolver-coverage'
+    ctx.rule(R, 'the dtype a store target is cast to is resolved from every source the stored values are drawn from: when the stored '
+             'expression uses a collection of arrays whole, the resolver call must not look at one constant-indexed member of that '
+             'collection only', floor=10)
+    prog = ctx.prog
+    n = 0
+    for f in prog.top_funcs():
+        if f.module.short in SKIP_MODULES:
+            continue
+        # resolver calls assigned to a local
+        rdefs = {}
+        for a in ast.walk(f.node):
+            if isinstance(a, ast.Assign) and len(a.targets) == 1 and isinstance(a.targets[0], ast.Name) and isinstance(a.value, ast.Call) \
+                    and call_name(a.value) in RESOLVERS:
+                rdefs.setdefault(a.targets[0].id, []).append(a)
+        if not rdefs:
+            continue
+        for rname, defs in rdefs.items():
+            for d in defs:
+                # targets cast with this dtype
+                casts = [a for a in ast.walk(f.node) if isinstance(a, ast.Assign) and isinstance(a.targets[0], ast.Name) and isinstance(a.value, ast.Call)
+                         and isinstance(a.value.func, ast.Attribute) and a.value.func.attr == 'astype' and a.value.args and norm(a.value.args[0]) == rname]
+                tnames = {norm(a.targets[0]) for a in casts}
+                if not tnames:
+                    continue
+                stores = [a for a in ast.walk(f.node) if isinstance(a, ast.Assign) and isinstance(a.targets[0], ast.Subscript)
+                          and norm(a.targets[0].value) in tnames and abs(a.lineno - d.lineno) < 40]
+                partial = {}   # collection name -> constant index looked at by the resolver
+                for x in ast.walk(d.value):
+                    if isinstance(x, ast.Subscript) and isinstance(x.value, ast.Name) and isinstance(x.slice, ast.Constant) and isinstance(x.slice.value, int):
+                        partial[x.value.id] = x.slice.value
+                for st in stores:
+                    n += 1
+                    key = f'{f.name}:{rname}->{norm(st.targets[0].value)}@{norm(st.value)[:40]}'
+                    bad = []
+                    for coll, idx in partial.items():
+                        whole_use = False
+                        for x in ast.walk(st.value):
+                            if isinstance(x, ast.Name) and x.id == coll:
+                                # is this occurrence the value of a subscript with the same constant?
+                                sub = [y for y in ast.walk(st.value) if isinstance(y, ast.Subscript) and y.value is x
+                                       and isinstance(y.slice, ast.Constant) and y.slice.value == idx]
+                                if not sub:
+                                    whole_use = True
+                        if whole_use:
+                            bad.append((coll, idx))
+                    if bad:
+                        ctx.bad(R, f, st, f'the stored values are drawn from all of `{bad[0][0]}` but `{rname}` is resolved from `{bad[0][0]}[{bad[0][1]}]` only: '
+                                'values of the other members are cast into a dtype that cannot hold them', key=key)
+                    else:
+                        ctx.ok(R, f, st, f'`{rname}` = {norm(d.value)[:60]} covers what is stored', key=key)
+    ctx.require(n >= 8, 'stores into resolver-cast targets')
+
+
 def f2_concatenations(ctx: Ctx) -> None:
     R = 'F2.concatenate-dtype'
     ctx.rule(R, 'every np.concatenate in core writes into an out= array allocated with a resolver-derived dtype, or concatenates '
